@@ -148,9 +148,13 @@ def check_case(case):
     okp, problem = lib_call(parse_problem_text, problem_text(dom, objects, st), domain)
     if not okp:
         return res
-    line = "[" + ",".join("(" + " ".join(m) + (" " if len(m) == 1 else "") + ")" for m in slots) + "]"
+    # entries separated by a comma, a comma and a blank, or blanks only (the exporter's own (operators: ...) spelling)
+    sep = case.get("line_sep", ",")
+    if sep not in (",", ", ", " ", "  "):
+        raise pddl.Invalid("separator")
+    line = "[" + sep.join("(" + " ".join(m) + (" " if len(m) == 1 else "") + ")" for m in slots) + "]"
     second = case.get("second")
-    lines = [line] + ([("[" + ",".join("(" + " ".join(m) + (" " if len(m) == 1 else "") + ")" for m in second) + "]")] if second else [])
+    lines = [line] + ([("[" + sep.join("(" + " ".join(m) + (" " if len(m) == 1 else "") + ")" for m in second) + "]")] if second else [])
 
     def run():
         ex = MultiAgentTrajectoryExporter(domain)
@@ -259,7 +263,8 @@ def gen(ch, tier):
     slots = gen_joint(ch, dom, objects, world, st)
     if ch.flag(0.04):
         slots = [["nop"] for _ in slots]          # the first step already has every agent idling
-    case = {"dom": dom, "objects": objects, "state": jstate(st), "slots": slots}
+    case = {"dom": dom, "objects": objects, "state": jstate(st), "slots": slots,
+            "line_sep": ch.weighted([(5, ","), (2, ", "), (2, " "), (1, "  ")])}
     if ch.flag(0.3):
         case["second"] = gen_joint(ch, dom, objects, world, st, prefer_applicable=False)
         if ch.flag(0.25):
